@@ -319,6 +319,20 @@ func checkC07(P *Program, r *Result, tier string) {
 	}
 	// value store layout
 	if ld, gt := P.Method(relStrstore, "StrStore", "Load"), P.Method(relStrstore, "StrStore", "Get"); r.require("strstore.StrStore.Load/Get", ld != nil && gt != nil) {
+		// the filling loop may live in Load itself or in a helper on the same receiver that Load calls
+		origLd := ld
+		for _, f := range P.reachable([]*ssa.Function{origLd}, func(f *ssa.Function) bool { return f.Pkg != origLd.Pkg }) {
+			if f == origLd || len(f.Params) == 0 || !types.Identical(f.Params[0].Type(), origLd.Params[0].Type()) {
+				continue
+			}
+			for _, b := range f.Blocks {
+				for _, in := range b.Instrs {
+					if builtinCall(valueOf(in), "copy") != nil {
+						ld = f
+					}
+				}
+			}
+		}
 		fa := run.A.fa(ld)
 		// Load: length stored at offset, bytes copied to [offset+4 : offset+4+len], offset += 4+len
 		var lenStore *ssa.Store
